@@ -426,15 +426,15 @@ def run(ctx):
             dict(nf=2, defn="Def2", maxn=4, maxroots=1, dicts="DictsOne", lims="{2}"),
         ]
     else:
-        cfgs = [
+        cfgs = [  # 7.8 M, 10.4 M, 7.9 M, 20.8 M generated states
             dict(nf=3, defn="Def3", maxn=3, maxroots=2, dicts="DictsAll", lims=allp),
             dict(nf=2, defn="Def2", maxn=4, maxroots=1, dicts="DictsAll", lims=allp),
             dict(nf=3, defn="Def3", maxn=4, maxroots=1, dicts="DictsOne", lims=allp),
-            dict(nf=3, defn="Def3", maxn=5, maxroots=1, dicts="DictsOne", lims="{2}"),
+            dict(nf=2, defn="Def2", maxn=5, maxroots=1, dicts="DictsOne", lims="{2}"),
         ]
     d = ctx.sub("t1")
     for c in cfgs:
-        res = tlc.run_tlc("MCUPStateSM", MC_CFG % c, d, timeout=3000, workers=WORKERS)
+        res = tlc.run_tlc("MCUPStateSM", MC_CFG % c, d, timeout=3000)
         if res.error:
             raise MachineryError(res.error)
         ctx.add_tlc("T1 %r" % (c,), res)
@@ -504,7 +504,7 @@ def run(ctx):
     nf2 = 5
     if world.defs != [0, 1, ND, 1, 1]:
         raise MachineryError("fluent defaults of the driver's Problem are not Def5: %r" % (world.defs,))
-    nr = 400 if q else 3000
+    nr = 400 if q else 2000
     rtr = []
     for i in range(nr):
         nops = ctx.rng.choice([12, 25, 40, 60]) if i % 4 else 60
